@@ -3,7 +3,7 @@ from __future__ import annotations
 
 from typing import List, Optional
 
-from ..absint import Builtin, Cls, Const, Fn, Foreign, Interp, Obj, Term, explore, is_call, mentions, run_method, show, subterms
+from ..absint import Builtin, Cls, Const, Fn, Foreign, Interp, Obj, Term, Tup, explore, is_call, mentions, run_method, show, subterms
 from ..model import Undecided
 from .common import path_text
 
@@ -346,6 +346,8 @@ def parsed_prefix(t):
         x = t.args[1][0]
         if isinstance(x, Term) and x.op == "call" and isinstance(x.args[0], Foreign) and x.args[0].dotted.endswith("fromstring") and x.args[1]:
             return x.args[1][0]
+        if isinstance(x, Obj) and x.label == "<Element>" and "__text__" in x.attrs:
+            return x.attrs["__text__"]  # an element the constant-text XML model produced (check_find)
     return None
 
 
@@ -530,6 +532,9 @@ def stringio_model(it, callee, args, kw):
 
 CAT_TAGS = ["getProperties", "oneLight", "setLightVector"]
 CAT_PIECES = ["x", "<", ">", "<foo", "<getProperties", "<oneLight", "<setLightVector", " a='1'>", "</foo>"]
+# every proper prefix of every known start tag, alone and behind junk: a message whose opening tag is cut anywhere by the
+# transport must be kept whole (the rest arrives with the next read)
+CAT_PARTIALS = [pre + ("<" + t)[:k] for t in ["getProperties", "oneLight", "setLightVector"] for k in range(1, len(t) + 1) for pre in ("", "x", "x>", "<foo a='1'>")]
 
 
 def resync_oracle(data: str) -> str:
@@ -540,6 +545,58 @@ def resync_oracle(data: str) -> str:
         return data[min(pos):]
     r = data.rfind("<")
     return data[r:] if r >= 0 else ""
+
+
+def constructed_buffer(it, p, text):
+    """A Buffer produced by abstractly running its real constructor against a registry that holds exactly the three
+    catalogue tags (GetProperties, the top-level OneLight, SetLightVector - seeded through the real register decorator),
+    then filled with ``text`` through the public append().  Whatever the constructor derives from the tag list exists
+    as the code computes it."""
+    from ..absint import Cls, Frame
+    from .c03 import seed_registry
+    Bc = buf_cls(p)
+    regs = [p.cls("indi.message.get_properties.GetProperties"), p.cls("indi.message.one_light.OneLight"), p.cls("indi.message.sets.SetLightVector")]
+    if [lower(c.name) for c in regs] != CAT_TAGS:
+        raise Undecided("catalogue tags do not match the message classes")
+    saved = dict(it.opts)
+    n = len(it.events)
+    try:
+        seed_registry(it, p, regs)
+        it.opts["inline"] = lambda fi, node: fi.cls is Bc or fi.name in ("all_message_classes", "tag_name")
+        it.opts["instantiate"] = lambda ci: ci is Bc
+        it.opts["foreign_model"] = stringio_model
+        o = it.apply(Cls(Bc), [], {}, [], None, Frame(None, Bc.module, {}), False)
+        if not isinstance(o, Obj):
+            raise Undecided("Buffer() did not yield an abstract object")
+        ap = Bc.find_method("append")
+        if ap is None:
+            raise Undecided("Buffer.append not found")
+        it.run_function(Fn(ap, o), [Const(text)], {})
+    finally:
+        del it.events[n:]
+        it.opts.clear()
+        it.opts.update(saved)
+    o.label = "buf"
+    return o
+
+
+def lower(name):
+    return name[:1].lower() + name[1:]
+
+
+def buffer_text(it, p, o):
+    """The buffer's content read through the public 'data' view."""
+    from .common import public_get
+    saved = it.opts.get("foreign_model")
+    it.opts["foreign_model"] = stringio_model
+    try:
+        v = public_get(it, o, "data")
+    finally:
+        if saved is None:
+            it.opts.pop("foreign_model", None)
+        else:
+            it.opts["foreign_model"] = saved
+    return v
 
 
 def resync_catalogue(ctx, f, depth=3):
@@ -553,16 +610,17 @@ def resync_catalogue(ctx, f, depth=3):
     inputs = [""]
     for k in range(1, depth + 1):
         inputs.extend("".join(c) for c in _it.product(CAT_PIECES, repeat=k))
+    inputs.extend(CAT_PARTIALS)
     mism = []
     n = 0
     for s_ in inputs:
         def run(it: Interp, s_=s_):
-            o = Obj(Bc, {}, label="buf")
-            o.attrs["buffer"] = Obj(None, {"text": Const(s_)}, label="<StringIO>")
-            o.attrs["allowed_tags"] = __import__("indilint.absint", fromlist=["Lst"]).Lst([Const(t) for t in CAT_TAGS])
-            o.attrs["max_buffer_size_before_frontal_cleanup"] = Const(2048)
+            o = constructed_buffer(it, p, s_)
             it.o = o
-            return it.run_function(Fn(f, o), [], {})
+            try:
+                return it.run_function(Fn(f, o), [], {})
+            finally:
+                it.left = buffer_text(it, p, o)
 
         paths = explore(p, run, {"inline": lambda fi, node: fi.cls is Bc, "foreign_model": stringio_model, "max_for": 12, "max_while": 12, "max_steps": 200000})
         ctx.paths_enumerated += len(paths)
@@ -574,8 +632,8 @@ def resync_catalogue(ctx, f, depth=3):
                 break
             continue
         pa = paths[0]
-        buf = pa.interp.o.attrs.get("buffer")
-        got = buf.attrs["text"].v if pa.outcome == "return" and isinstance(buf, Obj) and isinstance(buf.attrs.get("text"), Const) else f"<{pa.outcome}: {show(pa.value)[:40] if pa.value is not None else ''}>"
+        left = getattr(pa.interp, "left", None)
+        got = left.v if pa.outcome == "return" and isinstance(left, Const) and isinstance(left.v, str) else f"<{pa.outcome}: {show(pa.value)[:40] if pa.value is not None else ''}>"
         if got != want:
             mism.append((s_, got, want))
             if len(mism) > 5:
@@ -785,7 +843,7 @@ def check_aux(ctx, rule):
                 for sub in ast.walk(t):
                     if isinstance(sub, ast.Attribute) and isinstance(sub.value, ast.Name) and sub.value.id == "self" and isinstance(sub.ctx, ast.Store) and sub.attr not in base:
                         stored.setdefault(sub.attr, []).append(fi)
-    if not stored:
+    if not any(any(fi is not init for fi in fs) for fs in stored.values()):
         ctx.holds(rule, Bc.short, "the framing state is the buffer text alone (no cached scan attributes)", ci=Bc)
         return
     init_vals = {}
@@ -795,6 +853,8 @@ def check_aux(ctx, rule):
                 init_vals[e.data["attr"]] = e.data["value"]
     setter = Bc.find_setter("data")
     for attr in sorted(stored):
+        if all(fi is init for fi in stored[attr]):
+            continue  # written by the constructor only: configuration derived once (e.g. from the tag list), not scan state
         iv = init_vals.get(attr)
         if iv is None or not isinstance(iv, Const):
             ctx.undecided(rule, Bc.short, f"cached attribute {attr} has no constant initial value", ci=Bc)
@@ -969,3 +1029,188 @@ def check_regex(ctx, rule, prefixes, what):
     ctx.counters[rule + ":regex arguments not resolved to a literal"] = unresolved
     if not bad:
         ctx.holds(rule, f"regex literals in {', '.join(prefixes)}", f"{n} regex literals: no unbounded repeat with an ambiguous iteration ({unresolved} pattern arguments not resolved to a literal)")
+
+
+# ------------------------------------------------------------------ the scan for a complete element, on constant buffers
+FIND_CASES = [
+    '<getProperties version="1.7"/>',
+    '<getProperties version="1.7"/><getProperties device="x"/>',
+    '<getProperties version="1.7"></getProperties>',
+    '<setLightVector device="d" name="n"><oneLight name="a">Ok</oneLight></setLightVector>',
+    '<setLightVector device="d" name="n"><oneLight name="a">Ok</oneLight><oneLight name="b">Busy</oneLight></setLightVector><getProperties/>',
+    # markup characters in character data and attribute values (an unbalanced quote in text, '>' inside a value)
+    '<setLightVector device="d" name="n"><oneLight name="a">8"</oneLight></setLightVector>',
+    '<setLightVector device="d" name="n"><oneLight name="a">12\' 30"</oneLight></setLightVector>',
+    '<setLightVector device="d" name="n"><oneLight name="a">it\'s</oneLight></setLightVector>',
+    '<getProperties device="a>b" version="1.7"/>',
+    "<getProperties device='a\"b' version='1.7'/>",
+    '<getProperties device="a&gt;b"/>',
+    '<setLightVector device="d" name="n"><oneLight name="a">x &gt; y &amp; "z</oneLight></setLightVector>',
+    '<getProperties><!-- > " --></getProperties>',
+    '<oneLight name="a"><![CDATA[> " <]]></oneLight>',
+    '<getProperties\n  version="1.7"\n/>\n<getProperties/>',
+    # still arriving: nothing to deliver yet
+    '<getProperties version="1.7"',
+    '<setLightVector device="d" name="n"><oneLight name="a">Ok</oneLight>',
+    '<setLightVector device="d" name="n"><oneLight name="a">8"</oneLight>',
+    '<getProperties device="a>',
+    # a complete message followed by the beginning of the next
+    '<getProperties/><setLightVec',
+    '<getProperties/>x',
+    '<oneLight name="a">"</oneLight><oneLight name="b">"</oneLight>',
+]
+
+
+def _et_model(it, callee, args, kw):
+    """xml.etree.ElementTree.fromstring on CONSTANT text: decided by the standard library's parser (stdlib code on a
+    constant; no repository code runs) - an element object, or ParseError."""
+    r = stringio_model(it, callee, args, kw)
+    if r is not None:
+        return r
+    if isinstance(callee, Foreign) and callee.dotted.split(".")[-1] == "fromstring" and args and isinstance(args[0], Const) and isinstance(args[0].v, (str, bytes)):
+        import xml.etree.ElementTree as _ET
+        from ..absint import _Raise
+        try:
+            _ET.fromstring(args[0].v)
+        except _ET.ParseError:
+            it.emit("raise", getattr(it, "cur_stmt", None), value=Term("exc", "ParseError"), implicit=True)
+            raise _Raise(Term("exc", "ParseError"), getattr(it, "cur_stmt", None))
+        return Obj(None, {"__text__": args[0]}, label="<Element>")
+    return None
+
+
+def find_oracle(data: str):
+    """The first prefix that ends with '>' and is a well-formed XML document - what a scan over every '>' must find."""
+    import xml.etree.ElementTree as _ET
+    e = 0
+    while True:
+        e = data.find(">", e)
+        if e < 0:
+            return None
+        e += 1
+        try:
+            _ET.fromstring(data[:e])
+            return e
+        except _ET.ParseError:
+            continue
+
+
+def check_find(ctx, rule):
+    """Every '>' is a candidate end of the first element and none may be passed over: evaluated on constant buffer
+    contents (quotes and '>' in text and attribute values, comments, CDATA, incomplete elements), the scan must hand exactly
+    the first well-formed prefix to the message parser and report its end - or report that nothing is complete yet."""
+    p = ctx.p
+    Bc = buf_cls(p)
+    f = Bc.find_method(roles(p)["FIND"])
+    if f is None:
+        raise Undecided("the buffer's find helper was not found")
+    bad = False
+    n = 0
+    for s_ in FIND_CASES:
+        n += 1
+
+        def run(it: Interp, s_=s_):
+            o = constructed_buffer(it, p, s_)
+            return it.run_function(Fn(f, o), [], {})
+
+        paths = explore(p, run, {"inline": lambda fi, node: fi.cls is Bc, "foreign_model": _et_model, "max_while": 40, "max_for": 12, "max_steps": 200000})
+        ctx.paths_enumerated += len(paths)
+        want = find_oracle(s_)
+        if len(paths) != 1:
+            ctx.undecided(rule, f.short, f"the scan of the constant buffer {s_!r} is not decided by constant evaluation ({len(paths)} paths)", fi=f)
+            bad = True
+            continue
+        pa = paths[0]
+        v = pa.value
+        got_end, got_pfx = "?", None
+        if pa.outcome == "return" and isinstance(v, Tup) and len(v.items) == 2:
+            m, e = v.items
+            got_end = e.v if isinstance(e, Const) else "?"
+            px = parsed_prefix(m)
+            got_pfx = px.v if isinstance(px, Const) else (None if isinstance(m, Const) and m.v is None else "?")
+        exp_end, exp_pfx = (want, s_[:want]) if want is not None else (None, None)
+        if (got_end, got_pfx) != (exp_end, exp_pfx):
+            what = f"delivers {got_pfx!r} (end {got_end})" if got_pfx not in (None, "?") else (f"reports nothing complete (end {got_end})" if pa.outcome == "return" else f"raises {show(pa.value)[:40] if pa.value is not None else ''}")
+            ctx.violated(rule, f.short, f"on the buffer {s_!r} the scan {what}; the first complete element is {exp_pfx!r}" + (": a complete message is passed over and stays undelivered (and blocks what follows it)" if exp_pfx is not None and got_pfx != exp_pfx else ""), fi=f, text="find:" + ("missed" if exp_pfx is not None else "spurious"), witness=s_)
+            bad = True
+    ctx.counters[rule + ":constant buffers scanned"] = n
+    if not bad:
+        ctx.holds(rule, f.short, f"{n} constant buffer contents: the scan hands exactly the first well-formed prefix to the message parser, or nothing while the element is incomplete", fi=f)
+
+
+# ------------------------------------------------------------------ one receive buffer per connection
+def connection_classes(p):
+    """Classes under indi.transport whose constructor creates a receive buffer (found by abstract construction)."""
+    Bc = buf_cls(p)
+    out = []
+    for mod in p.modules.values():
+        if not mod.name.startswith("indi.transport"):
+            continue
+        for ci in mod.classes.values():
+            if ci is Bc or ci.find_method("__init__") is None:
+                continue
+            if any(isinstance(n_, __import__("ast").Name) and n_.id == Bc.name for n_ in __import__("ast").walk(ci.node)):
+                out.append(ci)
+    return out
+
+
+def check_own_buffer(ctx, rule):
+    """Framing state is per connection: two connections constructed one after the other (same interpreter state, every
+    optional argument omitted as the library's own call sites do) must not share a receive buffer - with a shared buffer
+    the bytes of two peers interleave into one text, and a partial message left by a dead connection poisons the others."""
+    p = ctx.p
+    Bc = buf_cls(p)
+    from ..absint import Cls, Frame, Lst, Dct
+    classes = connection_classes(p)
+    n = 0
+    for ci in classes:
+        sig = p.init_chain_signature(ci)
+
+        def run(it: Interp, ci=ci, sig=sig):
+            it.made = []
+            for k in (1, 2):
+                o = it.apply(Cls(ci), [], {n_: Obj(None, label=f"<{n_}{k}>") for n_ in sig.required()}, [], None, Frame(None, ci.module, {}), False)
+                it.made.append(o)
+            return Const(None)
+
+        paths = explore(p, run, {"inline": lambda fi, node: fi.cls is Bc and fi.name == "__init__", "instantiate": lambda k_: k_ is Bc or k_ is ci, "foreign_model": stringio_model})
+        ctx.paths_enumerated += len(paths)
+        verdict = None
+        seen_bufs = 0
+        for pa in paths:
+            if pa.outcome != "return":
+                continue
+            a, b = pa.interp.made
+            if not (isinstance(a, Obj) and isinstance(b, Obj)):
+                verdict = "?"
+                break
+
+            def bufs(o):
+                out, todo, seen = [], [o], set()
+                while todo:
+                    x = todo.pop()
+                    if id(x) in seen:
+                        continue
+                    seen.add(id(x))
+                    if isinstance(x, Obj):
+                        if x.cls is Bc:
+                            out.append(x)
+                            continue
+                        if x is o:
+                            todo.extend(x.attrs.values())
+                    elif isinstance(x, (Lst,)):
+                        todo.extend(x.items)
+                    elif isinstance(x, Dct):
+                        todo.extend(v for _, v in x.pairs)
+                return out
+
+            ba, bb = bufs(a), bufs(b)
+            seen_bufs = max(seen_bufs, len(ba))
+            if any(x is y for x in ba for y in bb):
+                verdict = "shared"
+        if verdict == "?" or seen_bufs == 0:
+            continue  # not a class that owns a buffer (e.g. the listener that creates handlers)
+        n += 1
+        init = ci.find_method("__init__")
+        ctx.check(verdict is None, rule, f"{init.short}[{ci.name}]", "every connection constructs its own receive buffer", f"two {ci.name} connections constructed one after the other hold the SAME receive buffer object (a default argument or class attribute evaluated once): the bytes of different peers are framed as one text - a write split over two reads is corrupted by another connection's data, and what a dead connection left unfinished blocks the others", fi=init, text=f"shared-buffer:{ci.name}", witness=f"{ci.name}(...); {ci.name}(...)")
+    ctx.floor(rule, "connection classes owning a receive buffer", n, 3)
